@@ -92,11 +92,12 @@ Lemma apply_collect : forall t hit f rows pre,
   exists rs' ok,
     apply_updates t (collect_updates_from (length pre) hit f rows) (pre ++ rows) = (pre ++ rs', ok)
     /\ Forall2 (fun r' r => r' = r \/ (hit r = true /\ r' = f r /\ notnull_okb t r' = true)) rs' rows
-    /\ (ok = true -> rs' = map (fun r => if hit r then f r else r) rows)
+    /\ (ok = true -> rs' = map (fun r => if hit r then f r else r) rows
+                     /\ forall r, In r rows -> hit r = true -> notnull_okb t (f r) = true)
     /\ (ok = false -> exists r, In r rows /\ hit r = true /\ notnull_okb t (f r) = false).
 Proof.
   intros t hit f rows. induction rows as [|r rows IH]; intros pre.
-  - exists [], true. cbn. repeat split; auto. discriminate.
+  - exists [], true. cbn. repeat split; auto; try discriminate.
   - cbn [collect_updates_from]. destruct (hit r) eqn:Eh.
     + cbn [apply_updates]. destruct (notnull_okb t (f r)) eqn:En.
       * rewrite set_nth_app.
@@ -106,7 +107,9 @@ Proof.
         destruct IH as [rs' [ok [E1 [E2 [E3 E4]]]]].
         exists (f r :: rs'), ok. rewrite <- app_assoc in E1. cbn [app] in E1.
         split; [exact E1|]. split; [constructor; [right; auto|exact E2]|]. split.
-        -- intros Hok. cbn [map]. rewrite Eh. f_equal. apply E3. exact Hok.
+        -- intros Hok. destruct (E3 Hok) as [E3a E3b]. split.
+           ++ cbn [map]. rewrite Eh. f_equal. exact E3a.
+           ++ intros x [<-|Hx] Hh; [exact En|apply E3b; assumption].
         -- intros Hok. destruct (E4 Hok) as [x [Hx1 Hx2]]. exists x. split; [right; exact Hx1|exact Hx2].
       * exists (r :: rows), false. split; [reflexivity|]. split.
         -- apply Forall2_refl. intros; left; reflexivity.
@@ -117,7 +120,9 @@ Proof.
       destruct IH as [rs' [ok [E1 [E2 [E3 E4]]]]].
       exists (r :: rs'), ok. rewrite <- app_assoc in E1. cbn [app] in E1.
       split; [exact E1|]. split; [constructor; [left; reflexivity|exact E2]|]. split.
-      * intros Hok. cbn [map]. rewrite Eh. f_equal. apply E3. exact Hok.
+      * intros Hok. destruct (E3 Hok) as [E3a E3b]. split.
+        -- cbn [map]. rewrite Eh. f_equal. exact E3a.
+        -- intros x [<-|Hx] Hh; [congruence|apply E3b; assumption].
       * intros Hok. destruct (E4 Hok) as [x [Hx1 Hx2]]. exists x. split; [right; exact Hx1|exact Hx2].
 Qed.
 
@@ -203,7 +208,7 @@ Proof.
   destruct ok.
   - split; [reflexivity|]. split; [exact DS|].
     intros ct' r G' Hr. rewrite (get_set_rows_same _ _ _ _ G) in G'. inversion G'; subst ct'. cbn in Hr.
-    rewrite (E3 eq_refl) in Hr. apply in_map_iff in Hr. destruct Hr as [x [Ex Hx]].
+    rewrite (proj1 (E3 eq_refl)) in Hr. apply in_map_iff in Hr. destruct Hr as [x [Ex Hx]].
     destruct (refs fk k x) eqn:Er.
     + subst r. unfold refs. rewrite (nulled_has_null _ _ _ Hne Hn Hl). reflexivity.
     + subst r. exact Er.
